@@ -42,5 +42,8 @@ def main(tier, replay=None):
                {"AtMostOnce", "NobodyEarly", "DoneMeansRan", "NoStuck"}, {"O-once", "O-prog"})
     exer = build("h_l2r")
     random_runs(run, exer, "Once", cfgs + CONFIGS["t"][:1], 300 if tier == "quick" else 60000, "C07", {"O-once", "O-prog"})
+    # code -> spec: recorded executions of the same programs validated against OnceTrace.tla
+    trace_validate(run, exe, "Once", [c for c in cfgs if not c[1].get("_sim")], lambda c: dict(MaxNow=c.get("MaxNow", 0), Nest=c.get("Nest", 0)),
+                   ["AtMostOnce", "NobodyEarly", "DoneMeansRan"], "C07")
     run.cov.setdefault("conformant", True)
     return run.finish()
